@@ -9,11 +9,12 @@ namespace Zix.CopyFile
 open Zix.Errno
 
 inductive Call where
-  | openSrc | fstatSrc | openDst | fstatDst | ftruncate | cfr | alloc | read | write | fdatasync | closeDst | closeSrc
+  | openSrc | fstatSrc | openDst | fstatDst | ftruncate | cfr | alloc | read | write | free | fdatasync | closeDst | closeSrc
 deriving Repr, DecidableEq
 
 inductive Fault where
-  | err (e : Int)        -- the call fails with this errno (alloc: any value = refused)
+  | err (e : Int)        -- the call fails with this errno (alloc: any value = refused; free: the release
+                         -- cannot fail, it leaves this value in errno)
   | short (n : Nat)      -- read/write/copy_file_range transfer only n bytes (n ≥ 1 honoured by the generator)
 deriving Repr, DecidableEq
 
@@ -34,6 +35,7 @@ structure World where
   src     : List Nat          -- source bytes
   dst     : Dst
   blk     : Nat               -- max(st_blksize) of the two files
+  sizeKnown : Bool := true    -- false: `st_size` is reported as 0 whatever the content (procfs text files)
 deriving Repr
 
 structure St where
@@ -54,7 +56,7 @@ def St.bump (s : St) (c : Call) : St :=
 def callName : Call → String
   | .openSrc => "open-src" | .fstatSrc => "fstat-src" | .openDst => "open-dst"
   | .fstatDst => "fstat-dst" | .ftruncate => "ftruncate" | .cfr => "cfr" | .alloc => "alloc" | .read => "read" | .write => "write"
-  | .fdatasync => "fdatasync" | .closeDst => "close-dst" | .closeSrc => "close-src"
+  | .free => "free" | .fdatasync => "fdatasync" | .closeDst => "close-dst" | .closeSrc => "close-src"
 
 /-- Issue one call: look up its fault, count it, log it. -/
 def issue (fault : Call → Nat → Option Fault) (s : St) (c : Call) : St × Option Fault :=
@@ -85,14 +87,14 @@ def closeFds (fault : Call → Nat → Option Fault) (s : St) (have1 have2 : Boo
       | (s, some (.err e)) => ({ s with errno := e, closed := s.closed + 1 }, true)
       | (s, _) => ({ s with closed := s.closed + 1 }, false)
     else (s, false)
-  let st1 := if r1fail then 0 else errnoStatus s.errno
+  let st1 := if r1fail then errnoStatus s.errno else 0
   let (s, r2fail) :=
     if have2 then
       match issue fault s .closeSrc with
       | (s, some (.err e)) => ({ s with errno := e, closed := s.closed + 1 }, true)
       | (s, _) => ({ s with closed := s.closed + 1 }, false)
     else (s, false)
-  let st2 := if r2fail then 0 else errnoStatus s.errno
+  let st2 := if r2fail then errnoStatus s.errno else 0
   (s, if st0 ≠ 0 then st0 else if st1 ≠ 0 then st1 else st2)
 
 /-- `finish_copy(dst_fd, src_fd, status)` -/
@@ -218,21 +220,32 @@ def copyFile (w : World) (overwrite : Bool) (fault : Call → Nat → Option Fau
                 let (s, st) := finishCopy fault s true true (errnoStatus e)
                 ⟨st, s⟩
               | none =>
-                -- kernel copy
-                let s := { s with errno := 0 }
-                match cfrLoop fault (s.src.length + 1) s s.src.length with
-                | (s, some st) =>
-                  let (s, st) := finishCopy fault s true true st
-                  ⟨st, s⟩
-                | (s, none) =>
-                  -- user-space copy (the kernel copy is unavailable); what cfr copied so far stays, the
-                  -- file offsets have advanced by it
+                -- user-space copy from offset `done` (used when the kernel copy is unavailable or the source
+                -- reports no size): block or stack buffer, read/write loop, release, `errno = 0`, finish
+                let fallback (s : St) : Result :=
                   let done := (s.dst.getD []).length
                   let (s, f) := issue fault s .alloc
                   let bufSize := match f with | some _ => 512 | none => w.blk
                   let s := { s with errno := 0 }
                   let (s, st) := copyBlocks fault bufSize (s.src.length + 2) s done
+                  -- `zix_aligned_free` (always called, with NULL when the block was refused) may leave errno set
+                  let s := match issue fault s .free with
+                    | (s, some (.err e)) => { s with errno := e }
+                    | (s, _) => s
+                  let s := { s with errno := 0 }
                   let (s, st) := finishCopy fault s true true st
                   ⟨st, s⟩
+                -- kernel copy, only for a source that reports a size (`st_size > 0`)
+                let reported := if w.sizeKnown then s.src.length else 0
+                if reported = 0 then fallback s
+                else
+                  let s := { s with errno := 0 }
+                  match cfrLoop fault (s.src.length + 1) s reported with
+                  | (s, some st) =>
+                    let (s, st) := finishCopy fault s true true st
+                    ⟨st, s⟩
+                  | (s, none) =>
+                    -- what cfr copied so far stays, the file offsets have advanced by it
+                    fallback s
 
 end Zix.CopyFile
